@@ -17,6 +17,9 @@ events in order (queue `q`), a gated `full` callback returns when the script gav
 virtual time never passes an armed timer's deadline without the timer expiring (synctest fires timers
 exactly at their deadline). Every engine path is a path of `Model.Batch.step code`.
 
+A `sleep` of any length is accepted (hours of idleness are a single clock advance once no timer is
+armed). Where the regenerated code lets `bgCtx` end without `Close` the engine follows it (`bgEnds`).
+
 Lines:
     cfg batch <maxWait> <batchSize> [slow]    |  cfg func <maxWait> <gated:0|1> [slow]
     step <action> [arg] obs <cons> <nres> <lastres> <pulled> <spend> <sclosed> <cret> <fpend> <sinclose>
@@ -104,6 +107,7 @@ def showRes : Res → String
   | .endOK => "end"
   | .srcErr => "err"
   | .ctxErr => "ctx"
+  | .bgErr => "other"
 
 def b01 (b : Bool) : String := if b then "1" else "0"
 
@@ -169,9 +173,17 @@ def stepLine (g : Eng) (toks : List String) : Eng × String :=
         let after : Option (List EState) :=
           match act with
           | ["sleep", d] =>
-            let set := g.set
+            -- Virtual time passes (any amount: a sleep of hours is one `tick` per timer deadline on
+            -- the way). For code whose background context can end without Close (`Code.bgMayEnd`:
+            -- a deadline on `bgCtx`, `bgCancel` handed to a timer) the label `bgEnds` may be taken
+            -- before or after the time has passed; on the unchanged tree `step code … .bgEnds = none`
+            -- and both extra branches are empty.
             let target := fun (e : EState) => e.s.now + natOr d
-            some (set.flatMap fun e => advance cfg 200 (target e) [e])
+            let sleepOn := fun (set : List EState) => set.flatMap fun e => advance cfg 200 (target e) [e]
+            let early := quiesce cfg (applyLabel cfg .bgEnds g.set)
+            let plain := sleepOn g.set
+            let late := quiesce cfg (applyLabel cfg .bgEnds plain)
+            some (plain ++ (early.flatMap fun e => advance cfg 200 (e.s.now + natOr d) [e]) ++ late)
           | _ => (doAction cfg g.set act).map (quiesce cfg)
         match after with
         | none => (g, "bad-op")
